@@ -12,7 +12,7 @@ from checks import codech_util as cu
 
 def run(chk):
     cu.simple_check(
-        chk, "C19", "c19", ["release"], kinds=["enc_size"],
+        chk, "C19", "c19", ["release"], kinds=["enc_size", "struct"],
         rule="one evaluation = one encoded frame measured against the bound (plus its subframes against the per-subframe bound); distinct by (shape x configuration x block length); non-trivial = a frame produced by the real encoder from a non-empty block",
         assumptions=["sizes are measured on the release build only (the size of the output does not depend on overflow checks)"],
         evaluations=lambda s: cu.total(s, "frames") + cu.total(s, "subframes"),
